@@ -27,4 +27,13 @@ out.append("|---|---|---|")
 for f in sorted(glob.glob("/verif/seeded/*/meta.json")):
     m = json.load(open(f))
     out.append(f"| {m['property']} | {m['idea']} -- needs: {m['needs_to_manifest']} | {m['result']} |")
+r2 = sorted(glob.glob("/verif/seeded/*/round2/meta.json"))
+if r2:
+    out.append("\n### 13.3 Second round of independently seeded regressions (`seeded/<ID>/round2/`)\n")
+    out.append("A second fresh sub-agent per property, told only the property text and the one-line idea of the round-1 seed (so that it does something different). Same protocol.\n")
+    out.append("| property | the change and what it needs to manifest | outcome |")
+    out.append("|---|---|---|")
+    for f in r2:
+        m = json.load(open(f))
+        out.append(f"| {m['property']} | {m['idea']} -- needs: {m['needs_to_manifest']} | {m['result']} |")
 print("\n".join(out))
